@@ -5,7 +5,14 @@ CONSTANTS
   NReads = 0
   SizedOutsideLock = FALSE
   ShutdownInline = FALSE
+  PeersErrInline = FALSE
   ClientGuarded = TRUE
+  NInformers = 0
+  LoopVarShared = FALSE
+  NCheckers = 0
+  NChecks = 0
+  MaxVer = 1
+  DistShared = FALSE
   Part = "lifecycle"
 INVARIANTS NoSelfWait
-PROPERTIES EventuallyStopped
+PROPERTIES EventuallyStopped UserShutdownReturns
